@@ -38,8 +38,11 @@ pub fn bit_string_value(input: Input<'_>) -> ParserResult<'_, ASN1Value> {
         map(
             skip_ws_and_comments(delimited(
                 char(LEFT_BRACE),
-                separated_list0(char(','), skip_ws_and_comments(value_reference)),
-                char(RIGHT_BRACE),
+                separated_list0(
+                    skip_ws_and_comments(char(',')),
+                    skip_ws_and_comments(value_reference),
+                ),
+                skip_ws_and_comments(char(RIGHT_BRACE)),
             )),
             |named_bits| {
                 ASN1Value::BitStringNamedBits(named_bits.into_iter().map(String::from).collect())
